@@ -33,6 +33,13 @@ def run(tier, seed, only=None):
             continue
         run.run_unit(u, prog)
         run.vacuity_check(u)
+    for u in SU.rx_units():
+        if u.name not in ('BGP.negotiate_hold_time', 'BGP._open_received'):
+            continue
+        if only and u.name not in only:
+            continue
+        run.run_unit(u, prog)
+        run.vacuity_check(u)
     run.triage_all(known)
     run.replay_findings()
     run.witness_check(cap=None if tier == 'thorough' else 60)
